@@ -430,6 +430,17 @@ class EventBus:
     # Order matters - more specific types must come before general ones
 
     # 1. EventHandlerFunc[T_Event] - sync function taking event
+    @staticmethod
+    def _handler_key_for_pattern(event_pattern: Any) -> str:
+        """The key of self.handlers under which handlers for this pattern are kept: events are looked up by their event_type"""
+        if isinstance(event_pattern, type) and issubclass(event_pattern, BaseEvent):
+            # a model class may pin its own event_type (class-level default): its events carry that name, not the class name
+            declared_event_type = event_pattern.model_fields['event_type'].default
+            if isinstance(declared_event_type, str) and declared_event_type != 'UndefinedEvent':
+                return declared_event_type
+            return event_pattern.__name__
+        return str(event_pattern)
+
     @overload
     def on(self, event_pattern: EventPatternType, handler: EventHandlerFunc[T_Event]) -> None: ...
 
@@ -492,13 +503,7 @@ class EventBus:
         )
 
         # Determine event key
-        event_key: str
-        if event_pattern == '*':
-            event_key = '*'
-        elif isinstance(event_pattern, type) and issubclass(event_pattern, BaseEvent):  # pyright: ignore[reportUnnecessaryIsInstance]
-            event_key = event_pattern.__name__  # pyright: ignore[reportUnknownMemberType, reportUnknownVariableType]
-        else:
-            event_key = str(event_pattern)
+        event_key: str = self._handler_key_for_pattern(event_pattern)
 
         # Ensure event_key is definitely a string at this point
         assert isinstance(event_key, str)
@@ -728,7 +733,7 @@ class EventBus:
                 return await future
         finally:
             # Clean up handler
-            event_key: str = event_type.__name__ if isinstance(event_type, type) else str(event_type)  # pyright: ignore[reportUnknownMemberType, reportPartialTypeErrors]
+            event_key: str = self._handler_key_for_pattern(event_type)
             if event_key in self.handlers and notify_expect_handler in self.handlers[event_key]:
                 self.handlers[event_key].remove(notify_expect_handler)
 
